@@ -715,6 +715,9 @@ def write_evidence(prop, tier, seed, obs, results, genrep, wall, violations, kno
             "bounds per harness as listed in samples[].bound; everything outside them is outside the claim",
             "environment models of /verif/env stand in for std collections, Rc/Arc (leak model), Mutex/RwLock (single thread), the file, the memory map, bytes and bumpalo",
             "inductive-step obligations compose into the property by the paper argument in DESIGN.md (not machine checked)",
+            "stubs in every harness: element-wise core::ptr::copy / copy_nonoverlapping, empty alloc::fmt::format; FNV-1a and SHA3 stand-ins of /verif/env (FNV model checked against the real crate by fnv_step_matches_formula)",
+            "generated crate = /repo/src with std imports redirected to the models, #[repr(u64)] on enum Leaf and enum Data and the two variants of Leaf declared in the other order (layout only; DESIGN.md 10.1 item 6)",
+            "harnesses that decode nested bucket headers replace <BucketMeta as From<&[u8]>>::from by its contract (little-endian decode), which bucket_meta_codec proves of the real function",
         ],
         "wall_s": round(wall, 1),
         "violations": len(violations),
